@@ -316,6 +316,18 @@ let predict (c : string) (obs : string) : string * string * bool =
                  let want = show (dec no_env no_prop t') in
                  if obs_d = want then ("ok", true) else ("BAD:placeholder-not-substituted expected " ^ (if String.length want > 60 then String.sub want 0 60 else want), true)
              | None -> ("BAD:bad-path", false))
+        | "bare" ->
+            (match reach gen_registry false path [] schema dflt tree with
+             | Some (((SPlugin (iface, _), _), _), VMap kvs) ->
+                 (match plugin_entry gen_registry iface kvs with
+                  | Some e ->
+                      (match e.e_conf with
+                       | Some (cs, d) ->
+                           if validate orc d cs then ("ok", false)
+                           else if obs = "err" then ("ok", true) else ("BAD:invalid-defaults-accepted", true)
+                       | None -> ("ok", false))
+                  | None -> ("BAD:bad-path", false))
+             | _ -> ("BAD:bad-path", false))
         | "phe" -> if obs = "err" then ("ok", true) else ("BAD:unresolved-placeholder-accepted", true)
         | "case" | "free" -> ("ok", false)
         | _ -> ("BAD:unknown-mutation", false)
